@@ -541,7 +541,8 @@ def k13_citations(ctx, pid: str):
             if not ok and absent and len(appends) == 1 and appends[0][3] and appends[0][3][0] == CIT:
                 # the reference was appended on this path: its 1-based index is the new length of the list
                 lens = [s for s in idx.symbols() if s.startswith("len(") and "references" in s]
-                ok = len(lens) == 1 and idx == Aff.sym(lens[0])
+                # len() evaluated after the append (the new length) or before it (the old length + 1): the same number
+                ok = len(lens) == 1 and idx == Aff.sym(lens[0]) + 1
             written_formats.append(val.fmt)
         out.append(("K13.writer", name, ok, det))
         okpos = isinstance(key, Aff) and key == Aff.sym("idx") and "citation" in repr(obj)
